@@ -185,6 +185,19 @@ class Engine(ExprMixin, CallMixin):
     def st_Continue(self, node, st):
         return [('continue', None, st)]
 
+    def st_FunctionDef(self, node, st):
+        """a nested `def f(x): return <expr>` (positional parameters only, no decorators): a closure, as a lambda"""
+        body = [b for b in node.body if not (isinstance(b, ast.Expr) and isinstance(b.value, ast.Constant))]
+        a = node.args
+        if (len(body) != 1 or not isinstance(body[0], ast.Return) or body[0].value is None or node.decorator_list
+                or a.vararg or a.kwarg or a.kwonlyargs or a.defaults or a.posonlyargs):
+            raise Unsupported('nested function %s at line %d' % (node.name, node.lineno))
+        lam = ast.Lambda(args=a, body=body[0].value)
+        ast.copy_location(lam, node)
+        s = st.copy()
+        s.locals[node.name] = SFunc('lambda', lam, dict(st.locals))
+        return [('next', None, s)]
+
     def st_Raise(self, node, st):
         if node.exc is None:
             e = st.locals.get('$exc')
@@ -771,6 +784,8 @@ class Engine(ExprMixin, CallMixin):
                     (body_states if side else exit_states).append(s2)
         for bs in body_states:
             bs.note('loop@%d body' % line)
+            if is_for:
+                bs.ghost['$iter_index'] = i          # position of the current item in the iterated sequence (for ghost code)
             for ctrl, val, s2 in self.exec_block(node.body, bs):
                 # loop frame: whatever the loop contract does not list as modified must really be left alone by the body
                 # (otherwise the state after the loop, which keeps those arrays, would ignore the body's effect)
